@@ -29,6 +29,9 @@
      listunixfs  (blocks (rootvalue ...) (rootview ...))  files () -> (status (path ...))   (n1)
                  the harness builds the UnixFS DAG of the root values (k_cli.go dagStore) into a CAR; the
                  model works on the views (RunFs.v_uroot)
+     compilebad (kind n)                        files (in)      -> (1) when car compile over the damaged text of car debug
+                                                                   neither crashed nor reported success for an output
+                                                                   inspect --full rejects; (0 text) / (2 text) otherwise
      debugcompile (stdin)                       files (in)      -> (status roots (block ...) length post)
                  car debug -o p in; car compile -o out p; blocks sorted by CID
      outindep    (tname ...)                    files ()        -> (n1)   the harness ran a command the model does not
@@ -155,6 +158,7 @@ Section Run.
       end
     else if is_t cmd "listfile" then
       let '(ok, cs) := list_car hok hdrdec f0 in VL [v_status ok; v_cids cs]
+    else if is_t cmd "compilebad" then VL [VN 1]   (* the harness reports whether the invariant held *)
     else if is_t cmd "outindep" then
       (* car create goes through blockstore.OpenReadWrite, which tries to RESUME a non-empty file: over
          a file that is not the CAR it would write it refuses (exit 1) and leaves the file as it was *)
@@ -382,6 +386,10 @@ Definition prop_cli_with (hok : bytes -> bytes -> option bool) (hdrdec : bytes -
     else if is_t cmd "listfile" then
       if ok && cids_eqb (vcids (vnth 1 obs)) (map fst (a_blocks a0)) then VT "ok"%string
       else fail2 "list-scan-order" "listfile"
+    else if is_t cmd "compilebad" then
+      (* car compile over a damaged patch text: no crash; a reported success is an archive inspect --full accepts *)
+      if vN (vnth 0 obs) =? 1 then VT "ok"%string
+      else fail2 (if vN (vnth 0 obs) =? 0 then "compile-crash" else "compile-output-invalid") "compilebad"
     else if is_t cmd "outindep" then
       if (vN (vnth 0 obs) =? 1) || ((vN (vnth 0 obs) =? 2) && is_t (vnth 0 flags) "create")
       then VT "ok"%string else fail2 "output-depends-on-existing-file" "outindep"
